@@ -831,6 +831,91 @@ Qed.
 Lemma erase_covered p : rtree0 p -> wnr [] p -> tree (erase p) /\ wn [] (erase p).
 Proof. intros H1 H2. split; [apply tree_erase; exact H1|apply wn_erase; exact H2]. Qed.
 
+(* ------------------------------------------------------------------ the transported theorems *)
+Section Transport.
+  Variable P : params.
+  Hypothesis HP : pointwise P.
+  Variable p : prog.
+  Hypothesis Hp : rtree0 p.
+  Hypothesis Hw : wnr [] p.
+  Let h := fst (create [] (FTask p) (st0 P)).
+  Let s1 := snd (create [] (FTask p) (st0 P)).
+
+  (* T2 for programs with actual reads: whenever code of t runs - in particular when it is AT a read - every scoped
+     variable is the initial value overridden by the layers of the tasks below t and t's own open overrides *)
+  Theorem reads_see_enclosing_overrides_rtree0 n t q :
+    no_unwind P n (start h s1) -> c_mode (run P n (start h s1)) = MRun t q ->
+    let s := c_st (run P n (start h s1)) in
+    (forall x, var_get x s = apply_l (fun x => var_get x s1) (layers s) x) /\
+    exists tk rest, get t s = Some (mkFut None (KTask tk)) /\ tk_cact tk = true /\ wn (tk_ctxs tk) (erase q) /\
+      tasks s = t :: rest /\ layers s = lower s rest ++ map (pair t) (tk_ctxs tk) /\
+      forall u c, In (u, c) (lower s rest) ->
+        In u rest /\ exists tku, get u s = Some (mkFut None (KTask tku)) /\ tk_cact tku = true /\ In c (tk_ctxs tku).
+  Proof.
+    intros Hn Hm. cbn zeta. destruct (sim_run P p n Hp Hn) as (m & _ & E & Hnm).
+    assert (Hmq : c_mode (run P m (start (fst (create [] (FTask (erase p)) (st0 P))) (snd (create [] (FTask (erase p)) (st0 P))))) = MRun t (erase q)).
+    { rewrite <- E. cbn [ecfg c_mode]. fold h s1. rewrite Hm. reflexivity. }
+    pose proof (reads_see_enclosing_overrides_tree P HP (erase p) (tree_erase p Hp) (wn_erase [] p Hw) m t (erase q) Hnm Hmq) as T.
+    cbn zeta in T. rewrite <- E in T. cbn [ecfg c_st] in T. fold h s1 in T.
+    set (s := c_st (run P n (start h s1))) in *.
+    rewrite layers_est in T. destruct T as (A & tk' & rest & Hg & Hca & Hwn & Hts & Hl & Hlow).
+    split; [exact A|]. apply get_est_inv in Hg as (tk & Hg & ->).
+    exists tk, rest. rewrite lower_est in Hl, Hlow.
+    split; [exact Hg|]. split; [exact Hca|]. split; [exact Hwn|]. split; [exact Hts|]. split; [exact Hl|].
+    intros u c Hin. destruct (Hlow u c Hin) as (Hu & tku' & Hgu & Hcu & Hinc). split; [exact Hu|].
+    apply get_est_inv in Hgu as (tku & Hgu & ->). exists tku. split; [exact Hgu|]. split; [exact Hcu|exact Hinc].
+  Qed.
+
+  (* the value an actual read returns: the EvRead event appended by the next step carries apply_l init (layers s) x *)
+  Theorem actual_read_value_rtree0 n t x k :
+    no_unwind P n (start h s1) -> c_mode (run P n (start h s1)) = MRun t (ReadVar x k) ->
+    let s := c_st (run P n (start h s1)) in
+    let v := apply_l (fun x => var_get x s1) (layers s) x in
+    c_mode (run P (S n) (start h s1)) = MRun t (k v) /\
+    trace (c_st (run P (S n) (start h s1))) = EvRead t x v :: trace s.
+  Proof.
+    intros Hn Hm. cbn zeta. destruct (reads_see_enclosing_overrides_rtree0 n t _ Hn Hm) as (A & _). cbn zeta in A.
+    rewrite run_snoc. rewrite Hm. cbn [is_final].
+    destruct (run P n (start h s1)) as [md fr s]. cbn [c_mode c_st] in *. subst md.
+    cbn [step c_mode c_frames c_st]. rewrite (A x). split; reflexivity.
+  Qed.
+
+  Theorem reads_innermost_rtree0 n t q x :
+    no_unwind P n (start h s1) -> c_mode (run P n (start h s1)) = MRun t q ->
+    let s := c_st (run P n (start h s1)) in
+    (forall pre u cid v post, layers s = pre ++ (u, COverride cid x v) :: post ->
+       (forall l, In l post -> ovar (snd l) <> Some x) -> var_get x s = v) /\
+    ((forall l, In l (layers s) -> ovar (snd l) <> Some x) -> var_get x s = var_get x s1).
+  Proof.
+    intros Hn Hm. cbn zeta. destruct (sim_run P p n Hp Hn) as (m & _ & E & Hnm).
+    assert (Hmq : c_mode (run P m (start (fst (create [] (FTask (erase p)) (st0 P))) (snd (create [] (FTask (erase p)) (st0 P))))) = MRun t (erase q)).
+    { rewrite <- E. cbn [ecfg c_mode]. fold h s1. rewrite Hm. reflexivity. }
+    pose proof (reads_innermost_tree P HP (erase p) (tree_erase p Hp) (wn_erase [] p Hw) m t (erase q) x Hnm Hmq) as T.
+    cbn zeta in T. rewrite <- E in T. cbn [ecfg c_st] in T. fold h s1 in T. rewrite layers_est in T. exact T.
+  Qed.
+
+  (* T1 *)
+  Theorem values_restored_rtree0 n :
+    no_unwind P n (start h s1) ->
+    (c_mode (run P n (start h s1)) = MAfterExec \/ exists o, c_mode (run P n (start h s1)) = MDone o) ->
+    forall x, var_get x (c_st (run P n (start h s1))) = var_get x s1.
+  Proof.
+    intros Hn Hm x. destruct (sim_run P p n Hp Hn) as (m & _ & E & Hnm).
+    pose proof (values_restored_tree P HP (erase p) (tree_erase p Hp) (wn_erase [] p Hw) m Hnm) as T.
+    rewrite <- E in T. cbn [ecfg c_st c_mode] in T. fold h s1 in T. apply T.
+    destruct Hm as [Hm|(o & Hm)]; rewrite Hm; [left; reflexivity|right; exists o; reflexivity].
+  Qed.
+
+  (* C01: the value of the computation is the sequential value of the program with its reads erased *)
+  Theorem async_eq_seq_rtree0 n o :
+    no_unwind P n (start h s1) -> c_mode (run P n (start h s1)) = MDone o -> o = eval (erase p).
+  Proof.
+    intros Hn Hm. destruct (sim_run P p n Hp Hn) as (m & _ & E & Hnm).
+    apply (async_eq_seq_tree P (erase p) m o HP (tree_erase p Hp) Hnm).
+    rewrite <- E. cbn [ecfg c_mode]. fold h s1. rewrite Hm. reflexivity.
+  Qed.
+End Transport.
+
 (* STATUS.  Proved above: the class lemmas (tree_erase, wn_erase), the class invariant of rtree0 runs (rh_run,
    rtree0_run_class: a read met by the machine never branches, so erasing it is sound whatever value it got), and
    [helper (est s) = est (helper s)] for put, set_task, enter_ctx, pause_plain, exit_ctx, complete_task,
